@@ -61,6 +61,7 @@ S_nwLL         == <<"nwLL">>
 S_nwSL_wmL     == <<"nwSL", "wmL">>
 S_nwL_wmL_wmS  == <<"nwL", "wmL", "wmS">>
 S_nwLL_wmL     == <<"nwLL", "wmL">>
+S_nwL_wmL      == <<"nwL", "wmL">>
 C_ping_close        == << <<"ping">>, <<"close">> >>
 C_close_ping        == << <<"close">>, <<"ping">> >>
 C_pong_close        == << <<"pong">>, <<"close">> >>
